@@ -9,6 +9,7 @@ package gosym
 // targetPanic and never a host failure.
 
 import (
+	"reflect"
 	"fmt"
 	"go/token"
 	"go/types"
@@ -481,13 +482,26 @@ func callSSA(i *interpreter, caller *frame, callpos token.Pos, fn *ssa.Function,
 
 	if !i.interpretable(fn) {
 		name := fn.String()
-		if ext := intrinsics[name]; ext != nil {
-			return ext(fr, args)
+		ext := intrinsics[name]
+		// A library function whose host implementation cannot take symbolic arguments (or that has no model at all
+		// while a library body is being interpreted) is executed from its own SSA body instead.
+		useBody := false
+		if ext != nil && isNativeOnly(ext) && anySymbolic(args) {
+			useBody = i.stdBody(fn)
+		} else if ext == nil && i.stdDepth > 0 {
+			useBody = i.stdBody(fn)
 		}
-		if fn.Name() == "init" && fn.Signature.Recv() == nil && len(args) == 0 {
-			return nil // package initialisers of external packages are never run
+		if !useBody {
+			if ext != nil {
+				return ext(fr, args)
+			}
+			if fn.Name() == "init" && fn.Signature.Recv() == nil && len(args) == 0 {
+				return nil // package initialisers of external packages are never run
+			}
+			panic(pathEnd{kind: Inconclusive, msg: "unsupported external function: " + name})
 		}
-		panic(pathEnd{kind: Inconclusive, msg: "unsupported external function: " + name})
+		i.stdDepth++
+		defer func() { i.stdDepth-- }()
 	} else if ext := overrides[fn.String()]; ext != nil {
 		return ext(fr, args)
 	}
@@ -597,4 +611,35 @@ func doRecover(caller *frame) value {
 		}
 	}
 	return iface{}
+}
+
+var nativeCodePtr = reflect.ValueOf(nativeFn("probe", func() {})).Pointer()
+
+// isNativeOnly: the intrinsic is the plain reflection wrapper around the host function (no symbolic model).
+func isNativeOnly(f intrinsic) bool { return reflect.ValueOf(f).Pointer() == nativeCodePtr }
+
+func anySymbolic(args []value) bool {
+	for _, a := range args {
+		if isSym(a) {
+			return true
+		}
+		if sl, ok := a.([]value); ok {
+			for _, e := range sl {
+				if isSym(e) {
+					return true
+				}
+			}
+		}
+	}
+	return false
+}
+
+// stdBody makes sure the SSA body of a library function is built; false if it has none (assembly, linkname).
+func (i *interpreter) stdBody(fn *ssa.Function) bool {
+	if fn.Blocks == nil && fn.Pkg != nil {
+		i.run.buildMu.Lock()
+		fn.Pkg.Build()
+		i.run.buildMu.Unlock()
+	}
+	return fn.Blocks != nil
 }
